@@ -59,30 +59,71 @@ Proof.
 Qed.
 
 (* ------------------------------------------------------------------ Fragment.Encode on a one-trun fragment *)
-Definition one (h : tfhd) (dt : tfdt) (r : trun) (data : list N) : frag :=
-  mkFrag [mkTraf h dt [r] 0] (mkMdat data [] 0 false) 1 0 0 0.
+Definition one_m (h : tfhd) (dt : tfdt) (r : trun) (m : mdat) : frag := mkFrag [mkTraf h dt [r] 0] m 1 0 0 0.
+Definition one (h : tfhd) (dt : tfdt) (r : trun) (data : list N) : frag := one_m h dt r (mkMdat data [] 0 false).
 
-Lemma moof_size_one h dt r data : td_version dt <= 1 ->
-  32 <= moof_size (one h dt r data) <= 116 + 16 * lenN (tr_samples r).
+Lemma moof_size_one h dt r m : td_version dt <= 1 ->
+  32 <= moof_size (one_m h dt r m) <= 116 + 16 * lenN (tr_samples r).
 Proof.
-  intros Hv. unfold moof_size, one, traf_size. cbn [fr_trafs fr_moofx map sumN tf_hd tf_dt tf_truns tf_extra].
+  intros Hv. unfold moof_size, one_m, traf_size. cbn [fr_trafs fr_moofx map sumN tf_hd tf_dt tf_truns tf_extra].
   pose proof (trun_size_le r). pose proof (tfhd_size_le h). unfold tfdt_size. lia.
 Qed.
 
-Lemma touch_small data : lenN data < 2147483648 -> md_size_touch (mkMdat data [] 0 false) = mkMdat data [] 0 false.
+Lemma touch_id m : md_large m = false -> md_payload m <= 4294967287 -> md_size_touch m = m.
 Proof.
-  intros H. unfold md_size_touch, md_payload, md_data_length. cbn [md_data md_parts md_lazy md_large orb].
-  change (0 <? 0) with false. cbv iota. destruct (4294967287 <? lenN data) eqn:E; [lia|reflexivity].
+  intros Hl Hp. unfold md_size_touch. destruct (4294967287 <? md_payload m) eqn:E; [lia|].
+  rewrite Hl. destruct m as [d ps lz lg]. cbn in *. subst lg. reflexivity.
 Qed.
 
-Lemma set_offsets_one h dt r data : lenN data < 2147483648 ->
-  set_offsets (one h dt r data) =
-  one h dt (tr_with_doff r (i32 (moof_size (one h dt r data) + 8))) data.
+Lemma set_offsets_one h dt r m : md_large m = false -> md_payload m <= 4294967287 ->
+  set_offsets (one_m h dt r m) = one_m h dt (tr_with_doff r (i32 (moof_size (one_m h dt r m) + 8))) m.
 Proof.
-  intros Hd. unfold set_offsets. cbn [one fr_trafs all_truns flat_map tf_truns app fr_mdat].
-  change (1 <? lenN [r]) with false. rewrite andb_false_r. rewrite (touch_small data Hd).
-  cbn [md_header_size md_large sort_won fold_right insert_won assign_offsets map lookup_off tf_hd tf_dt tf_truns tf_extra].
+  intros Hl Hp. unfold set_offsets. cbn [one_m fr_trafs all_truns flat_map tf_truns app fr_mdat].
+  change (1 <? lenN [r]) with false. rewrite andb_false_r. rewrite (touch_id m Hl Hp).
+  unfold md_header_size. rewrite Hl.
+  cbn [sort_won fold_right insert_won assign_offsets map lookup_off tf_hd tf_dt tf_truns tf_extra].
   rewrite N.eqb_refl. reflexivity.
+Qed.
+
+(* what Encode returns: same mdat, header 8, nothing before the moof, moof size bounded by the sample count *)
+Definition encoded_small (n : N) (m : mdat) (fe : frag) : Prop :=
+  fr_mdat fe = m /\ fr_pre fe = 0 /\ moof_size fe <= 116 + 16 * n.
+
+Lemma encode_one_m opt h dt r m :
+  td_version dt <= 1 -> tr_samples r <> [] -> has_doff r = true ->
+  md_large m = false -> 16 * lenN (tr_samples r) + md_payload m + 200 < 2147483648 ->
+  exists fe, encode_frag opt (one_m h dt r m) = Ok fe /\ encoded_small (lenN (tr_samples r)) m fe.
+Proof.
+  intros Hv Hne Hdo Hlg Hsmall.
+  assert (Hgen : forall h1 r1, tr_samples r1 = tr_samples r -> has_doff r1 = true ->
+            exists fe, (let fr2 := set_offsets (one_m h1 dt r1 m) in
+                        match fr_trafs fr2 with
+                        | [] => Panic
+                        | t :: ts => if existsb doff_unset (tf_truns t) then Err
+                                     else if existsb doff_unset (all_truns ts) then Panic
+                                     else Ok (fr_with fr2 (fr_trafs fr2) (md_size_touch (fr_mdat fr2)) (fr_next fr2))
+                        end) = Ok fe /\ encoded_small (lenN (tr_samples r)) m fe).
+  { intros h1 r1 Hs1 Hd1. pose proof (moof_size_one h1 dt r1 m Hv) as Hm. rewrite Hs1 in Hm.
+    rewrite (set_offsets_one h1 dt r1 m Hlg ltac:(lia)). cbv zeta.
+    set (base := moof_size (one_m h1 dt r1 m) + 8) in *.
+    assert (Hi : i32 base = Z.of_N base).
+    { unfold i32. rewrite N.mod_small by lia. destruct (base <? 2147483648) eqn:E; [reflexivity|lia]. }
+    rewrite Hi. cbn [one_m fr_trafs tf_truns existsb all_truns flat_map fr_mdat fr_next].
+    unfold doff_unset, has_doff in *. cbn [tr_with_doff tr_flags tr_doff]. rewrite Hd1.
+    destruct (Z.of_N base =? 0)%Z eqn:Ez; [lia|]. cbn [andb orb].
+    rewrite (touch_id m Hlg ltac:(lia)).
+    eexists. split; [reflexivity|].
+    unfold encoded_small, fr_with. cbn [fr_trafs fr_mdat fr_next fr_pre fr_moofx fr_post].
+    assert (Hms : moof_size (mkFrag [mkTraf h1 dt [tr_with_doff r1 (Z.of_N base)] 0] m 1 0 0 0)
+                  = moof_size (one_m h1 dt r1 m)) by reflexivity.
+    cbn [one_m fr_pre fr_moofx fr_post]. rewrite Hms. repeat split. lia. }
+  unfold encode_frag. destruct opt.
+  - unfold optimize_first. cbn [one_m fr_trafs tf_truns tf_hd].
+    destruct (optimize_total h r Hne) as [[h' r'] Ho]. unfold optimize, FIXED_FSF. rewrite Ho. cbn [rbind].
+    destruct (optimize_frame true h r h' r' Ho) as (_ & Hd' & Hs' & _). cbn [fst snd] in *.
+    cbn [fr_with tf_dt tf_extra fr_mdat fr_next fr_pre fr_moofx fr_post]. fold (one_m h' dt r' m).
+    apply Hgen; [exact Hs'|rewrite Hd'; exact Hdo].
+  - cbn [rbind]. apply Hgen; [reflexivity|exact Hdo].
 Qed.
 
 Lemma encode_one opt h dt r data pos0 :
@@ -91,35 +132,9 @@ Lemma encode_one opt h dt r data pos0 :
   exists fe, encode_frag opt (one h dt r data) = Ok fe /\ seg_guard pos0 fe = true.
 Proof.
   intros Hv Hne Hdo Hsmall Hpos.
-  assert (Hgen : forall h1 r1, tr_samples r1 = tr_samples r -> has_doff r1 = true ->
-            exists fe, (let fr2 := set_offsets (one h1 dt r1 data) in
-                        match fr_trafs fr2 with
-                        | [] => Panic
-                        | t :: ts => if existsb doff_unset (tf_truns t) then Err
-                                     else if existsb doff_unset (all_truns ts) then Panic
-                                     else Ok (fr_with fr2 (fr_trafs fr2) (md_size_touch (fr_mdat fr2)) (fr_next fr2))
-                        end) = Ok fe /\ seg_guard pos0 fe = true).
-  { intros h1 r1 Hs1 Hd1. pose proof (moof_size_one h1 dt r1 data Hv) as Hm. rewrite Hs1 in Hm.
-    rewrite (set_offsets_one h1 dt r1 data ltac:(lia)). cbv zeta.
-    set (base := moof_size (one h1 dt r1 data) + 8) in *.
-    assert (Hi : i32 base = Z.of_N base).
-    { unfold i32. rewrite N.mod_small by lia. destruct (base <? 2147483648) eqn:E; [reflexivity|lia]. }
-    rewrite Hi. cbn [one fr_trafs tf_truns existsb all_truns flat_map fr_mdat fr_next].
-    unfold doff_unset, has_doff in *. cbn [tr_with_doff tr_flags tr_doff]. rewrite Hd1.
-    destruct (Z.of_N base =? 0)%Z eqn:Ez; [lia|]. cbn [andb orb].
-    rewrite (touch_small data ltac:(lia)).
-    eexists. split; [reflexivity|].
-    unfold seg_guard, fr_with. cbn [fr_trafs fr_mdat fr_next fr_pre fr_moofx fr_post md_header_size md_large md_data].
-    assert (Hms : moof_size (mkFrag [mkTraf h1 dt [tr_with_doff r1 (Z.of_N base)] 0] (mkMdat data [] 0 false) 1 0 0 0)
-                  = moof_size (one h1 dt r1 data)) by reflexivity.
-    cbn [one fr_pre fr_moofx fr_post]. rewrite Hms. apply andb_true_intro. split; [apply N.ltb_lt; subst base; lia|apply N.ltb_lt; lia]. }
-  unfold encode_frag. destruct opt.
-  - unfold optimize_first. cbn [one fr_trafs tf_truns tf_hd].
-    destruct (optimize_total h r Hne) as [[h' r'] Ho]. unfold optimize, FIXED_FSF. rewrite Ho. cbn [rbind].
-    destruct (optimize_frame true h r h' r' Ho) as (_ & Hd' & Hs' & _). cbn [fst snd] in *.
-    cbn [fr_with tf_dt tf_extra fr_mdat fr_next fr_pre fr_moofx fr_post]. fold (one h' dt r' data).
-    apply Hgen; [exact Hs'|rewrite Hd'; exact Hdo].
-  - cbn [rbind]. apply Hgen; [reflexivity|exact Hdo].
+  destruct (encode_one_m opt h dt r (mkMdat data [] 0 false) Hv Hne Hdo eq_refl Hsmall) as [fe [He (Hm & Hp & Hs)]].
+  exists fe. split; [exact He|]. unfold seg_guard. rewrite Hm, Hp. cbn [md_header_size md_large md_data].
+  apply andb_true_intro. split; apply N.ltb_lt; lia.
 Qed.
 
 Lemma write_segment_total opt T (l : list fullsample) pos0 :
@@ -364,4 +379,145 @@ Proof.
   rewrite (nonempty_pieces_id pieces Hne) in Hw.
   destruct (Hall fes Hw Hg) as [outs [Hro Hco]].
   exists pieces, fes, outs. repeat split; assumption.
+Qed.
+
+(* ------------------------------------------------------------------ the -lazy writer, total form *)
+From V.c11 Require Import C11LazyProofs.
+
+Lemma step_meta_built T dt l lz (s : sample) base : td_version dt <= 1 ->
+  exists dt', step (one_m (create_tfhd T) dt (canon 0 l) (mkMdat [] [] lz false)) (OMetaTo T s base)
+              = Ok (one_m (create_tfhd T) dt' (canon 0 (l ++ [s])) (mkMdat [] [] (u64 (lz + s_size s)) false)) /\
+              td_version dt' <= 1.
+Proof.
+  intros Hv. unfold one_m. cbn [step]. unfold add_sample_to_track. cbn [fr_trafs fr_next add_to_track_trafs tf_hd].
+  cbn [create_tfhd tf_track]. rewrite N.eqb_refl.
+  unfold add_to_traf. cbn [tf_truns last removelast tr_won canon tf_hd tf_extra app tf_dt].
+  change (u32 (1 + 4294967295)) with 0. cbn [N.eqb negb rbind fr_with fr_mdat fr_trafs fr_next fr_pre fr_moofx fr_post].
+  unfold md_add_lazy. cbn [md_data md_parts md_lazy md_large].
+  eexists. split; [reflexivity|]. destruct (u32 (lenN (tr_samples (canon 0 l))) =? 0); [apply set_base_version|exact Hv].
+Qed.
+
+Lemma add_metas_built T base : forall (metas : list sample) dt l lz, td_version dt <= 1 ->
+  exists dt' lz', add_metas (one_m (create_tfhd T) dt (canon 0 l) (mkMdat [] [] lz false)) T base metas
+                  = Ok (one_m (create_tfhd T) dt' (canon 0 (l ++ metas)) (mkMdat [] [] lz' false)) /\
+                  td_version dt' <= 1 /\ lz' <= lz + sizes_sum metas.
+Proof.
+  induction metas as [|s metas IH]; intros dt l lz Hv; cbn [add_metas].
+  - exists dt, lz. rewrite app_nil_r. repeat split; [exact Hv|unfold sizes_sum; cbn; lia].
+  - destruct (step_meta_built T dt l lz s base Hv) as [dt1 [Hs Hv1]]. rewrite Hs. cbn [rbind].
+    destruct (IH dt1 (l ++ [s]) (u64 (lz + s_size s)) Hv1) as [dt' [lz' [Ha [Hv' Hl]]]]. rewrite Ha.
+    exists dt', lz'. rewrite <- app_assoc. split; [reflexivity|]. split; [exact Hv'|].
+    assert (u64 (lz + s_size s) <= lz + s_size s) by (unfold u64; apply N.mod_le; discriminate).
+    unfold sizes_sum in *. cbn [map sumN]. lia.
+Qed.
+
+Lemma sizes_sum_fulls (FL : list fullsample) : Forall sized_f FL -> sizes_sum (map fs_s FL) = lenN (flat_map fs_data FL).
+Proof.
+  unfold sizes_sum. induction 1 as [|x l Hx _ IH]; [reflexivity|]. cbn [map sumN flat_map]. rewrite lenN_app, IH.
+  unfold sized_f in Hx. lia.
+Qed.
+
+Lemma write_lazy_total opt T base (FL : list fullsample) pos0 :
+  FL <> [] -> Forall sized_f FL ->
+  16 * lenN FL + lenN (flat_map fs_data FL) + 200 < 2147483648 -> pos0 < 4611686018427387904 ->
+  exists fr fe, add_metas (create_fragment T) T base (map fs_s FL) = Ok fr /\ encode_frag opt fr = Ok fe /\
+                lazy_guard pos0 (fe, flat_map fs_data FL) = true.
+Proof.
+  intros Hne Hsz Hsmall Hpos.
+  change (create_fragment T) with (one_m (create_tfhd T) (mkTfdt 0 0) (canon 0 []) (mkMdat [] [] 0 false)).
+  destruct (add_metas_built T base (map fs_s FL) (mkTfdt 0 0) [] 0 ltac:(cbn; lia)) as [dt' [lz' [Ha [Hv Hl]]]].
+  rewrite (sizes_sum_fulls FL Hsz) in Hl. cbn [app] in Ha.
+  destruct (encode_one_m opt (create_tfhd T) dt' (canon 0 (map fs_s FL)) (mkMdat [] [] lz' false)) as [fe [He (Hm & Hp & Hs)]].
+  - exact Hv.
+  - cbn [canon tr_samples]. destruct FL; [congruence|discriminate].
+  - reflexivity.
+  - reflexivity.
+  - cbn [canon tr_samples]. unfold lenN at 1. rewrite map_length. fold (lenN FL).
+    assert (md_payload (mkMdat [] [] lz' false) <= lz').
+    { unfold md_payload, md_data_length. cbn [md_lazy md_parts md_data]. destruct (0 <? lz'); cbn; lia. }
+    lia.
+  - eexists. exists fe. split; [exact Ha|]. split; [exact He|].
+    unfold lazy_guard. cbn [fst snd]. rewrite Hm, Hp. cbn [md_header_size md_large].
+    cbn [canon tr_samples] in Hs. unfold lenN in Hs at 1. rewrite map_length in Hs. fold (lenN FL) in Hs.
+    apply andb_true_intro. split; apply N.ltb_lt; lia.
+Qed.
+
+Lemma seg_track_lazy_total opt f tb T pos0 : C09Spec.consistent tb = true -> data_ok f tb = true ->
+  one_offset_box tb = true -> pos0 < 4611686018427387904 ->
+  forall ivs,
+  (forall iv x, In iv ivs -> In x (C11Model.range iv) -> 1 <= x <= nsamples tb) ->
+  Forall (fun iv => fst iv <= snd iv + 1) ivs ->
+  forallb (seg_small tb) ivs = true ->
+  exists outs, seg_track_lazy opt f tb T ivs = Ok outs /\ Forall (fun p => lazy_guard pos0 p = true) outs.
+Proof.
+  intros H Hd Hone Hpos. induction ivs as [|[a b] ivs IH]; intros Hin Hord Hsm.
+  - exists []. split; [reflexivity|constructor].
+  - cbn [forallb] in Hsm. apply andb_prop in Hsm. destruct Hsm as [Hsm1 Hsm2].
+    pose proof (Forall_inv Hord) as Ho1. pose proof (Forall_inv_tail Hord) as Ho2. cbn [fst snd] in Ho1.
+    destruct (IH (fun iv x Hi => Hin iv x (or_intror Hi)) Ho2 Hsm2) as [outs [Hs Hg]].
+    cbn [seg_track_lazy]. unfold write_lazy_segment, fetch_meta_interval. cbn [fst snd].
+    destruct (b + 1 <? a) eqn:E1; [lia|].
+    destruct (N.eq_dec a (b + 1)) as [Eab|Nab].
+    + replace (N.to_nat (b + 1 - a)) with O by lia. cbn [fetch_meta_loop rbind]. rewrite Hs. cbn [rbind].
+      exists outs. split; [reflexivity|exact Hg].
+    + assert (Ha : 1 <= a <= nsamples tb).
+      { apply (Hin (a, b)); [left; reflexivity|]. rewrite range_seqN. apply in_seqN. lia. }
+      assert (Hb : 1 <= b <= nsamples tb).
+      { apply (Hin (a, b)); [left; reflexivity|]. rewrite range_seqN. apply in_seqN. lia. }
+      set (k := N.to_nat (b + 1 - a)) in *.
+      destruct (fetch_meta_loop_ok tb H k a ltac:(lia) ltac:(subst k; lia)) as [metas [Hml Hmm]].
+      destruct (fetch_loop_ok f tb H Hd k a ltac:(lia) ltac:(subst k; lia)) as [l [_ Hm]].
+      rewrite <- (fulls_metas f tb k a l Hm) in Hmm. apply map_Some_inj in Hmm. subst metas.
+      rewrite Hml. cbn [rbind].
+      pose proof (map_Some_length _ _ Hm) as Hlen. rewrite map_length, seqN_length in Hlen.
+      pose proof (fulls_data_len f tb H Hd k a l ltac:(lia) ltac:(subst k; lia) Hm) as Hdl.
+      replace (a + N.of_nat k - 1) with b in Hdl by (subst k; lia).
+      unfold seg_small in Hsm1. cbn [fst snd] in Hsm1. apply N.ltb_lt in Hsm1.
+      destruct (decode_time_correct tb H a Ha) as [t [d [_ [_ Hq]]]].
+      destruct (write_lazy_total opt T t l pos0) as [fr [fe [Hadd [Henc Hgl]]]].
+      * destruct l; [cbn [length] in Hlen; subst k; lia|discriminate].
+      * apply (expansion_sized f tb H Hd k a); [lia|subst k; lia|exact Hm].
+      * unfold lenN at 1. rewrite Hlen, Hdl. subst k. lia.
+      * exact Hpos.
+      * destruct l as [|x l']; [cbn [length] in Hlen; subst k; lia|].
+        cbn [map]. cbv iota. change (fs_s x :: map fs_s l') with (map fs_s (x :: l')).
+        rewrite Hq. cbn [rbind fst]. rewrite Hadd. cbn [rbind]. rewrite Henc. cbn [rbind].
+        rewrite (copy_media_data_ok f tb H Hd Hone a b ltac:(lia) ltac:(lia) ltac:(lia)). cbn [rbind].
+        rewrite Hs. cbn [rbind].
+        assert (Hdata : S_data f tb a b = flat_map fs_data (x :: l')).
+        { unfold S_data. fold k. symmetry. apply (S_data_fulls f tb k a _ Hm). }
+        rewrite Hdata. eexists. split; [reflexivity|constructor; assumption].
+Qed.
+
+Lemma plan_lazy_total (f : pfile) (trs : list itrack) d ivss :
+  Forall (fun t => C09Spec.consistent (snd t) = true /\ data_ok f (snd t) = true /\ one_offset_box (snd t) = true) trs ->
+  segment_plan (map itrack_of trs) d = Ok ivss ->
+  Forall2 (fun t ivs => forall opt T pos0 (tx : C05Model.trex),
+             tx_track tx = T -> pos0 < 4611686018427387904 -> forallb (seg_small (snd t)) ivs = true ->
+             exists outs res, seg_track_lazy opt f (snd t) T ivs = Ok outs /\
+                              read_all (fun p => read_back tx pos0 (snd p) (fst p)) outs = Ok res /\
+                              map Some (concat res) = expansion f (snd t) /\
+                              Forall (fun o => o <> []) res) trs ivss.
+Proof.
+  intros Hall Hp.
+  assert (Hwf : wf_tracks (map itrack_of trs) = true /\ small_tracks (map itrack_of trs) = true).
+  { unfold wf_tracks, small_tracks. rewrite !forallb_forall. split; intros x Hx; apply in_map_iff in Hx;
+      destruct Hx as [t [<- Ht]]; rewrite Forall_forall in Hall; destruct (Hall t Ht) as [Hc _];
+      destruct (itrack_wf t Hc) as [H1 [H2 _]]; assumption. }
+  destruct Hwf as [Hwf Hsm].
+  pose proof (plan_tile (map itrack_of trs) d ivss Hwf Hsm Hp) as Ht.
+  pose proof (plan_ordered (map itrack_of trs) d ivss Hwf Hsm Hp) as Ho.
+  apply Forall2_map_l in Ht. pose proof (Forall2_Forall_r _ _ _ _ Ht Ho) as Hto.
+  eapply Forall2_impl_in; [|exact Hto].
+  intros t ivs Hin [Htile Hord] opt T pos0 tx Htx Hpos Hsmall. cbv beta in Htile.
+  rewrite Forall_forall in Hall. destruct (Hall t Hin) as [Hc [Hd Hone]].
+  destruct (itrack_wf t Hc) as [_ [_ Hn]]. rewrite Hn in Htile.
+  assert (Hrange : forall iv x, In iv ivs -> In x (C11Model.range iv) -> 1 <= x <= nsamples (snd t)).
+  { intros iv x Hiv Hx.
+    assert (Hi : In x (concat (map C11Model.range ivs))).
+    { apply in_concat. exists (C11Model.range iv). split; [apply in_map; exact Hiv|exact Hx]. }
+    rewrite Htile, seqN1_seqN in Hi. apply in_seqN in Hi. lia. }
+  destruct (seg_track_lazy_total opt f (snd t) T pos0 Hc Hd Hone Hpos ivs Hrange Hord Hsmall) as [outs [Hs Hg]].
+  destruct (seg_track_lazy_end_to_end opt f (snd t) T pos0 tx ivs outs Hc Hd Hone Htx Htile Hs Hg) as [res [Hr [He Hne]]].
+  exists outs, res. repeat split; assumption.
 Qed.
